@@ -101,6 +101,10 @@ def arena_seq_sweep(ctx, r):
         try:
             steps = [(x.split(":")[0], int(x.split(":")[1])) for x in impl[1 + i].split()]
             assert len(steps) == len(bs)
+            left = [int(x.split(":")[2]) for x in impl[1 + i].split()]
+            if any(left):
+                # the model's ar_mem_add at counter n has no reservation outstanding between calls
+                r["disagreements"].append("arena sequences: bytes stay reserved after MemTable::add returned: `%s` IMPL %s" % (script[1 + i], impl[1 + i]))
         except Exception:
             r["disagreements"].append("arena sequences: `%s` IMPL %s" % (script[1 + i], impl[1 + i]))
             parsed.append(None)
